@@ -169,3 +169,171 @@ func (f *BadO4Factory) NewInterceptor(_ string) (interceptor.Interceptor, error)
 	in := f.template
 	return &in, nil
 }
+
+// ---- E6: what the media path fills, the media path (or a clock) empties ------------------------------------------------------
+
+type GoodE6hist struct {
+	mu   sync.Mutex
+	sent map[uint32]int
+	next uint32
+}
+
+type GoodE6 struct {
+	interceptor.NoOp
+	GoodE6hist GoodE6hist
+}
+
+func (g *GoodE6) BindLocalStream(_ *interceptor.StreamInfo, w interceptor.RTPWriter) interceptor.RTPWriter {
+	return interceptor.RTPWriterFunc(func(h *rtp.Header, p []byte, a interceptor.Attributes) (int, error) {
+		g.GoodE6hist.mu.Lock()
+		g.GoodE6hist.sent[g.GoodE6hist.next] = len(p)
+		g.GoodE6hist.next++
+		if g.GoodE6hist.next > 1024 {
+			delete(g.GoodE6hist.sent, g.GoodE6hist.next-1025)
+		}
+		g.GoodE6hist.mu.Unlock()
+		return w.Write(h, p, a)
+	})
+}
+
+func (g *GoodE6) BindRTCPReader(r interceptor.RTCPReader) interceptor.RTCPReader {
+	return interceptor.RTCPReaderFunc(func(b []byte, a interceptor.Attributes) (int, interceptor.Attributes, error) {
+		n, attr, err := r.Read(b, a)
+		if err != nil {
+			return 0, nil, err
+		}
+		g.GoodE6hist.mu.Lock()
+		delete(g.GoodE6hist.sent, uint32(n))
+		g.GoodE6hist.mu.Unlock()
+		return n, attr, nil
+	})
+}
+
+type BadE6hist struct {
+	mu   sync.Mutex
+	sent map[uint32]int
+	next uint32
+}
+
+type BadE6 struct {
+	interceptor.NoOp
+	BadE6hist BadE6hist
+}
+
+func (g *BadE6) BindLocalStream(_ *interceptor.StreamInfo, w interceptor.RTPWriter) interceptor.RTPWriter {
+	return interceptor.RTPWriterFunc(func(h *rtp.Header, p []byte, a interceptor.Attributes) (int, error) {
+		g.BadE6hist.mu.Lock()
+		g.BadE6hist.sent[g.BadE6hist.next] = len(p)
+		g.BadE6hist.next++
+		g.BadE6hist.mu.Unlock()
+		return w.Write(h, p, a)
+	})
+}
+
+func (g *BadE6) BindRTCPReader(r interceptor.RTCPReader) interceptor.RTCPReader {
+	return interceptor.RTCPReaderFunc(func(b []byte, a interceptor.Attributes) (int, interceptor.Attributes, error) {
+		n, attr, err := r.Read(b, a)
+		if err != nil {
+			return 0, nil, err
+		}
+		g.BadE6hist.mu.Lock()
+		delete(g.BadE6hist.sent, uint32(n))
+		g.BadE6hist.mu.Unlock()
+		return n, attr, nil
+	})
+}
+
+// ---- O5: the header handed downstream belongs to the goroutine that hands it over --------------------------------------------
+
+type o5kept struct {
+	hdr     *rtp.Header
+	payload []byte
+}
+
+func (k *o5kept) Header() *rtp.Header { return k.hdr }
+
+type o5resender struct {
+	interceptor.NoOp
+	mu   sync.Mutex
+	kept map[uint16]*o5kept
+	w    interceptor.RTPWriter
+}
+
+func (g *o5resender) GoodO5resend(seq uint16) {
+	g.mu.Lock()
+	k := g.kept[seq]
+	g.mu.Unlock()
+	if k == nil {
+		return
+	}
+	h := k.Header().Clone()
+	_, _ = g.w.Write(&h, k.payload, nil)
+}
+
+func (g *o5resender) BadO5resend(seq uint16) {
+	g.mu.Lock()
+	k := g.kept[seq]
+	g.mu.Unlock()
+	if k == nil {
+		return
+	}
+	_, _ = g.w.Write(k.Header(), k.payload, nil)
+}
+
+func (g *o5resender) BindRTCPReader(r interceptor.RTCPReader) interceptor.RTCPReader {
+	return interceptor.RTCPReaderFunc(func(b []byte, a interceptor.Attributes) (int, interceptor.Attributes, error) {
+		n, attr, err := r.Read(b, a)
+		if err != nil {
+			return 0, nil, err
+		}
+		go g.GoodO5resend(uint16(n))
+		go g.BadO5resend(uint16(n))
+		return n, attr, nil
+	})
+}
+
+// ---- G4: a report only lists what was found ---------------------------------------------------------------------------------------
+
+type g4ack struct {
+	seq  uint16
+	size int
+}
+
+type g4hist struct{ m map[uint16]g4ack }
+
+func (h *g4hist) get(seq uint16) (g4ack, bool) {
+	a, ok := h.m[seq]
+	return a, ok
+}
+
+func (h *g4hist) GoodG4unpack(start, n uint16) []g4ack {
+	out := make([]g4ack, 0, n)
+	for i := start; i != start+n; i++ {
+		if a, ok := h.get(i); ok {
+			out = append(out, a)
+		}
+	}
+	return out
+}
+
+func (h *g4hist) GoodG4all(start, n uint16) []g4ack {
+	out := make([]g4ack, n)
+	for i := uint16(0); i < n; i++ {
+		a, _ := h.get(start + i)
+		a.seq = start + i
+		out[i] = a
+	}
+	return out
+}
+
+func (h *g4hist) BadG4unpack(start, n uint16) []g4ack {
+	out := make([]g4ack, n)
+	k := 0
+	for i := start; i != start+n; i++ {
+		if a, ok := h.get(i); ok {
+			out[k] = a
+		}
+		k++
+	}
+	return out
+}
